@@ -99,7 +99,7 @@ class Engine:
     def call(self, I, decl, res, cinfo, args, e):
         loc = e['loc']
         for name in (res, decl):
-            if name and name in self.specs:
+            if name and name in self.specs and not getattr(self.specs[name], 'inline_calls', False):
                 return self.apply_spec(I, self.specs[name], args, loc)
         for name in (res, decl):
             if name and name in self.std:
@@ -117,7 +117,7 @@ class Engine:
         return self.std.get('trait:' + decl)
 
     def call_by_name(self, I, name, args, loc):
-        if name in self.specs:
+        if name in self.specs and not getattr(self.specs[name], 'inline_calls', False):
             return self.apply_spec(I, self.specs[name], args, loc)
         if name in self.std:
             return self.std[name](I, args, {'loc': loc}, {})
@@ -159,6 +159,8 @@ class Engine:
             return VBool(('uf', f.name, args[0].lin))
         if cls[0] == 'bdd' and len(args) == 3 and isinstance(args[1], VList) and isinstance(args[2], VInt):
             return VBdd(('app', 'UFB', f.name, args[1].term, ('lin', args[2].lin)))
+        if cls[0] == 'bdd' and len(args) == 1 and isinstance(args[0], VBdd):
+            return VBdd(('app', 'UFT', f.name, args[0].term))
         raise Undecidable('application of function parameter %s' % show_key(f.name), loc)
 
     # ---- exploration ----
@@ -176,6 +178,8 @@ class Engine:
             if name is None: name = 'arg%d' % i
             cls = ty_class(p['ty'], symparams)
             vals.append(I.fresh(cls, ('p', name), p['ty']))
+        ap = getattr(self, 'alias_params', None)
+        if ap: vals[ap[1]] = vals[ap[0]]
         return vals
 
     def explore(self, fname, spec=None, max_worlds=20000):
@@ -197,6 +201,8 @@ class Engine:
             I.inline_stack = [fname]
             I.app_seen = set()
             I.excluded = {}
+            I.merge_ifs = getattr(self, 'merge_ifs', False)
+            I.alias_params = getattr(self, 'alias_params', None)
             try:
                 params = self.make_params(I, th, fninfo)
                 if spec is not None:
@@ -204,11 +210,14 @@ class Engine:
                         I.excluded[(params[idx].term, params[idx].adt)] = vs
                     if spec.cofactor is not None:
                         I.cof = params[spec.cofactor].term
+                I.loop_mode = bool(spec is not None and getattr(spec, 'loop_mode', False))
                 try:
                     I.top = True
                     res = I.run_body(th, params)
                 except Diverge as d:
                     res = d
+                except LoopContinue:
+                    res = 'LOOP_CONTINUE'
                 obls = []
                 if spec is not None and spec.post is not None:
                     obls = spec.post(I, params, res)
